@@ -38,13 +38,13 @@ type defn struct {
 }
 
 type Ctx struct {
-	defs    []defn
-	idx     map[string]int
-	n       int
-	prelude []string // always included (sorts, spec functions, axioms)
+	defs      []defn
+	idx       map[string]int
+	n         int
+	prelude   []string          // always included (sorts, spec functions, axioms)
 	opaqueAlt map[string]string // prelude line -> weaker replacement (declaration only)
-	strs    map[string]string
-	strList []string
+	strs      map[string]string
+	strList   []string
 }
 
 func newCtx() *Ctx {
@@ -507,7 +507,7 @@ func mask(w int) uint64 {
 	}
 	return (uint64(1) << uint(w)) - 1
 }
-func refLit(v uint64) string { return fmt.Sprintf("%d", v) }
+func refLit(v uint64) string   { return fmt.Sprintf("%d", v) }
 func refLt(a, b string) string { return "(< " + a + " " + b + ")" }
 func refLe(a, b string) string { return "(<= " + a + " " + b + ")" }
 
